@@ -37,6 +37,12 @@
 //!
 //! Also in the alphabet: market orders with every time in force (the statement speaks of all market orders).
 //!
+//! Second hardening round: layer 1c (the layer-1 model with every request of a sequence carrying the SAME client order
+//! id and strategy - ids must be fresh and acceptance must follow the balance whatever the client sends); a balance
+//! that is 1e-14 short of exactly enough in layer 1b; a trade query whose `since` lies INSIDE the history (1 ms after
+//! the first op's exchange time) in layer 2; upper-case exchange asset names (!= the internal names) everywhere and,
+//! in layer 3, a third exchange placed after the simulated one that uses one of its instrument names for another market.
+//!
 //! Oracle (statement):
 //!   R-accept   a market order on a configured instrument is accepted iff balance(spent) >= required, with
 //!              spent = quote, required = p*q*(1+fee) for a buy; spent = BASE, required = q*(1+fee) for a sell.
@@ -122,9 +128,10 @@ use tokio::sync::{broadcast, mpsc};
 use super::common::t0;
 
 const EXCHANGE: ExchangeId = ExchangeId::BinanceSpot;
-const ASSETS: [&str; 3] = ["btc", "eth", "usdt"];
+/// exchange names of the assets: upper case, so that an asset's exchange name differs from its (lower-case) internal name
+const ASSETS: [&str; 3] = ["BTC", "ETH", "USDT"];
 /// (name, base, quote)
-const INSTRUMENTS: [(&str, &str, &str); 3] = [("BTCUSDT", "btc", "usdt"), ("ETHUSDT", "eth", "usdt"), ("ETHBTC", "eth", "btc")];
+const INSTRUMENTS: [(&str, &str, &str); 3] = [("BTCUSDT", "BTC", "USDT"), ("ETHUSDT", "ETH", "USDT"), ("ETHBTC", "ETH", "BTC")];
 const UNKNOWN: &str = "DOGEUSDT";
 
 // ------------------------------------------------------------------------------------------------
@@ -178,6 +185,10 @@ pub struct Config {
     /// execution manager's request timeout makes the manager abandon every open-order call)
     #[serde(default, skip_serializing_if = "Option::is_none")]
     pub latency_ms: Option<u64>,
+    /// layer 1c: every request of the sequence carries the SAME client order id and strategy (a client that re-uses
+    /// its ids); the statement's "fresh order/trade id" and "accepts iff enough" hold for any sequence of orders
+    #[serde(default, skip_serializing_if = "std::ops::Not::not")]
+    pub same_cid: bool,
 }
 impl Config {
     fn latency(&self) -> u64 {
@@ -253,6 +264,11 @@ fn inst_name(s: &Sym) -> &'static str {
 
 fn request(s: &Sym, n: usize) -> OrderRequestOpen<ExchangeId, InstrumentNameExchange> {
     request_u(s, n, false)
+}
+
+/// the request of layer 1c: whatever its position in the sequence it carries client order id "cid-0" / strategy "strat-0"
+fn request_same_cid(s: &Sym) -> OrderRequestOpen<ExchangeId, InstrumentNameExchange> {
+    request_u(s, 0, false)
 }
 
 /// `unique_strategy`: every request of a sequence has its own strategy id (used where a fill can only be
@@ -639,8 +655,9 @@ impl<'a> SeqModel for M<'a> {
         let t = t0() + TimeDelta::seconds((n / 2) as i64);
         s.ex.0.time_exchange_latest = t;
         s.ex.0.account.update_time_exchange(t);
-        let req = request(sym, n);
+        let req = if self.cfg.same_cid { request_same_cid(sym) } else { request(sym, n) };
         let req_echo = req.clone();
+        let cid_txt = req.key.cid.0.to_string();
         let r = catch_unwind(AssertUnwindSafe(|| s.ex.0.open_order(req)));
         let (resp, notifications) = match r {
             Ok(x) => x,
@@ -691,7 +708,7 @@ impl<'a> SeqModel for M<'a> {
             s.issued = issued_probe;
         }
         if resp.state.is_ok() {
-            s.accepted_cids.push(format!("cid-{n}"));
+            s.accepted_cids.push(cid_txt);
             self.accepted.fetch_add(1, Ordering::Relaxed);
         } else {
             self.rejected.fetch_add(1, Ordering::Relaxed);
@@ -740,6 +757,9 @@ pub enum Op {
     TradesSinceNow,
     Balances,
     Snapshot,
+    /// since = 1 ms after the exchange time of the FIRST op of the sequence: fills of that instant are older than
+    /// `since` (must not be listed), fills of later instants are newer (must be listed) - a `since` INSIDE the history
+    TradesSinceFirst,
 }
 
 /// When the client gives up on an open-order call it has sent.
@@ -754,6 +774,12 @@ pub enum Abandon {
 }
 
 fn env_ops() -> Vec<Op> {
+    env_menu(true)
+}
+
+/// `extended` = with the ops appended in the second hardening round (indices of the others are unchanged, so a
+/// case recorded with the base menu replays with the extended one)
+fn env_menu(extended: bool) -> Vec<Op> {
     let m = |sell, price, qty, inst| Op::Open(Sym { sell, price, qty, inst, limit: false, tif: 0, fine: false });
     let mut v = vec![
         m(false, 10, 1, 0), // buy BTCUSDT
@@ -773,7 +799,15 @@ fn env_ops() -> Vec<Op> {
     for how in [Abandon::AtOnce, Abandon::MidLatency] {
         v.extend(opens.iter().map(|s| Op::OpenDrop(*s, how)));
     }
+    if extended {
+        v.push(Op::TradesSinceFirst); // (appended: the indices above are stable)
+    }
     v
+}
+
+/// `since` of `Op::TradesSinceFirst`: 1 ms after the exchange time of the first op (sent at `first_sent_ms`)
+fn since_first(first_sent_ms: u64) -> DateTime<Utc> {
+    t0() + TimeDelta::milliseconds((first_sent_ms + LATENCY_MS / 2 + 1) as i64)
 }
 
 enum Resp {
@@ -796,7 +830,11 @@ struct EnvExec {
 }
 
 fn env_execute(cfg: &Config, max_ops: usize, ch: &mut Chooser) -> EnvExec {
-    let menu = env_ops();
+    env_execute_menu(cfg, max_ops, true, ch)
+}
+
+fn env_execute_menu(cfg: &Config, max_ops: usize, extended: bool, ch: &mut Chooser) -> EnvExec {
+    let menu = env_menu(extended);
     let rt = paused_rt();
     let names: Vec<InstrumentNameExchange> =
         INSTRUMENTS.iter().map(|i| i.0).chain([UNKNOWN]).map(InstrumentNameExchange::new).collect();
@@ -875,6 +913,15 @@ fn env_execute(cfg: &Config, max_ops: usize, ch: &mut Chooser) -> EnvExec {
                 }),
                 Op::TradesSinceNow => {
                     let since = t0() + TimeDelta::milliseconds((now_ms + LATENCY_MS / 2) as i64);
+                    Box::pin(async move {
+                        match client.fetch_trades(since).await {
+                            Ok(v) => Resp::Trades(v),
+                            Err(e) => Resp::Failed(format!("{e:?}")),
+                        }
+                    })
+                }
+                Op::TradesSinceFirst => {
+                    let since = since_first(ops[0].1);
                     Box::pin(async move {
                         match client.fetch_trades(since).await {
                             Ok(v) => Resp::Trades(v),
@@ -1098,9 +1145,10 @@ fn env_judge(cfg: &Config, via: &str, unique_strategy: bool, ops: Vec<(Op, u64)>
                     None => {}
                 }
             }
-            (Op::TradesAll | Op::TradesSinceNow, Resp::Trades(list)) => {
+            (Op::TradesAll | Op::TradesSinceNow | Op::TradesSinceFirst, Resp::Trades(list)) => {
                 let since = match op {
                     Op::TradesAll => DateTime::<Utc>::MIN_UTC,
+                    Op::TradesSinceFirst => since_first(ops[0].1),
                     _ => t0() + TimeDelta::milliseconds((*sent + LATENCY_MS / 2) as i64),
                 };
                 let mut got: Vec<String> = list.iter().map(|t| t.id.0.to_string()).collect();
@@ -1165,7 +1213,7 @@ fn env_judge(cfg: &Config, via: &str, unique_strategy: bool, ops: Vec<(Op, u64)>
 fn op_tag(op: &Op) -> &'static str {
     match op {
         Op::Open(_) | Op::OpenDrop(..) => "open",
-        Op::TradesAll | Op::TradesSinceNow => "trades",
+        Op::TradesAll | Op::TradesSinceNow | Op::TradesSinceFirst => "trades",
         Op::Balances => "balances",
         Op::Snapshot => "snapshot",
     }
@@ -1197,7 +1245,7 @@ fn long_script(n_opens: usize) -> Vec<usize> {
 }
 
 fn long_config() -> Config {
-    Config { balances: ["100000".into(), "100000".into(), "100000".into()], fee: "0.1".into(), latency_ms: None }
+    Config { balances: ["100000".into(), "100000".into(), "100000".into()], fee: "0.1".into(), latency_ms: None, same_cid: false }
 }
 
 // ------------------------------------------------------------------------------------------------
@@ -1237,6 +1285,9 @@ fn builder_execute(cfg: &Config, max_ops: usize, ch: &mut Chooser) -> EnvExec {
     for (name, base, quote) in INSTRUMENTS {
         builder = builder.add_instrument(Instrument::spot(EXCHANGE, internal_name(name), name, Underlying::new(base, quote), None));
     }
+    // Okx is tracked too, has no execution link and comes LAST; it lists another market under a name the simulated
+    // exchange also uses ("ETHBTC" there is btc/usdt): the simulated exchange must know its own instruments only
+    builder = builder.add_instrument(Instrument::spot(ExchangeId::Okx, "okx_btc_usdt", "ETHBTC", Underlying::new("btc", "usdt"), None));
     let indexed = builder.build();
     let ex_index = indexed.find_exchange_index(EXCHANGE).expect("exchange index");
     let inst_index: Vec<InstrumentIndex> = INSTRUMENTS
@@ -1481,7 +1532,7 @@ fn configs(menu: &[&str], fees: &[&str]) -> Vec<Config> {
         for a in menu {
             for b in menu {
                 for c in menu {
-                    v.push(Config { balances: [a.to_string(), b.to_string(), c.to_string()], fee: f.to_string(), latency_ms: None });
+                    v.push(Config { balances: [a.to_string(), b.to_string(), c.to_string()], fee: f.to_string(), latency_ms: None, same_cid: false });
                 }
             }
         }
@@ -1533,7 +1584,10 @@ pub fn run(ctx: &Ctx) -> Outcome {
 
     // ---- layer 1b: many-decimal prices, quantities and fee (0.075 %): "exactly that amount" to the last digit.
     // 0.00012336905745 = 10 x 0.00001234 x 3 x 0.333 x 1.00075: exactly enough for the largest buy
-    let fine_cfgs = configs(&["0.00012336905745", "33"], &["0.00075"]);
+    // 0.00012336905744 = that minus 1e-14: NOT enough for it, by the last digit; 0.99974925 = 3 x 0.333 x 1.00075: exactly
+    // enough for the largest sell, 0.99974924999999 = 1e-14 short of it
+    let fine_menu = ["0.00012336905745", "0.00012336905744", "0.99974925", "0.99974924999999", "33"];
+    let fine_cfgs = configs(&fine_menu, &["0.00075"]);
     let fine_alpha = fine_alphabet();
     let fine_depth = if quick { 2 } else { 3 };
     let per_fine: Vec<(u64, u64, usize, u64, u64)> = fine_cfgs
@@ -1555,11 +1609,36 @@ pub fn run(ctx: &Ctx) -> Outcome {
     let fine_rejected: u64 = per_fine.iter().map(|x| x.4).sum();
     eprintln!("C08 layer 1b: configs={} alphabet={} depth={fine_depth} sequences={fine_sequences} accepted={fine_accepted} rejected={fine_rejected} elapsed={:.1}s", fine_cfgs.len(), fine_alpha.len(), ctx.start.elapsed().as_secs_f64());
 
+    // ---- layer 1c: a client that re-uses its client order id (and strategy) for every order
+    let cid_cfgs: Vec<Config> = [["3.3", "3.3", "33"], ["33", "33", "33"], ["0", "3.3", "33"]]
+        .iter()
+        .flat_map(|b| ["0", "0.1"].into_iter().map(move |f| Config { balances: [b[0].into(), b[1].into(), b[2].into()], fee: f.into(), latency_ms: None, same_cid: true }))
+        .collect();
+    let cid_depth = 3usize;
+    let per_cid: Vec<(u64, u64, usize, u64, u64)> = cid_cfgs
+        .par_iter()
+        .map(|cfg| {
+            let m = M::new(Some(ctx), cfg.clone(), alpha_base.clone());
+            let st = seq::run(ctx, &m, &cfg.label(), cid_depth);
+            for (sig, (_, suppressed)) in m.seen.lock().unwrap().iter() {
+                for _ in 0..*suppressed {
+                    ctx.violations.bump(sig);
+                }
+            }
+            (st.sequences, st.steps, st.distinct_final, m.accepted.load(Ordering::Relaxed), m.rejected.load(Ordering::Relaxed))
+        })
+        .collect();
+    let cid_sequences: u64 = per_cid.iter().map(|x| x.0).sum();
+    let cid_distinct: usize = per_cid.iter().map(|x| x.2).sum();
+    let cid_accepted: u64 = per_cid.iter().map(|x| x.3).sum();
+    let cid_rejected: u64 = per_cid.iter().map(|x| x.4).sum();
+    eprintln!("C08 layer 1c: configs={} alphabet={} depth={cid_depth} sequences={cid_sequences} accepted={cid_accepted} rejected={cid_rejected} elapsed={:.1}s", cid_cfgs.len(), alpha_base.len(), ctx.start.elapsed().as_secs_f64());
+
     // ---- layer 2
     let env_cfgs = vec![
-        Config { balances: ["3.3".into(), "3.3".into(), "33".into()], fee: "0.1".into(), latency_ms: None },
-        Config { balances: ["5".into(), "0".into(), "25".into()], fee: "0".into(), latency_ms: None },
-        Config { balances: ["0".into(), "3".into(), "11".into()], fee: "0.1".into(), latency_ms: None },
+        Config { balances: ["3.3".into(), "3.3".into(), "33".into()], fee: "0.1".into(), latency_ms: None, same_cid: false },
+        Config { balances: ["5".into(), "0".into(), "25".into()], fee: "0".into(), latency_ms: None, same_cid: false },
+        Config { balances: ["0".into(), "3".into(), "11".into()], fee: "0.1".into(), latency_ms: None, same_cid: false },
     ];
     let env_depth = if quick { 3 } else { 4 };
     let env_exec = AtomicU64::new(0);
@@ -1569,9 +1648,11 @@ pub fn run(ctx: &Ctx) -> Outcome {
     let env_abandoned_acc = AtomicU64::new(0);
     let samples: Mutex<BTreeMap<u64, Value>> = Mutex::new(BTreeMap::new());
     let mut env_points = 0u64;
-    for cfg in &env_cfgs {
+    // quick: the extended menu to depth 3; thorough: the base menu to depth 4 + the extended menu to depth 3
+    let env_passes: Vec<(bool, usize)> = if quick { vec![(true, 3)] } else { vec![(false, 4), (true, 3)] };
+    for (cfg, (extended, env_depth)) in env_cfgs.iter().flat_map(|c| env_passes.iter().map(move |p| (c, *p))) {
         let stats = choice::explore(None, |ch| {
-            let ex = env_execute(cfg, env_depth, ch);
+            let ex = env_execute_menu(cfg, env_depth, extended, ch);
             env_exec.fetch_add(1, Ordering::Relaxed);
             env_resp.fetch_add(ex.responses, Ordering::Relaxed);
             env_notes.fetch_add(ex.notifications, Ordering::Relaxed);
@@ -1618,10 +1699,10 @@ pub fn run(ctx: &Ctx) -> Outcome {
 
     // ---- layer 3: the builder path
     let b_cfgs = vec![
-        Config { balances: ["3.3".into(), "3.3".into(), "33".into()], fee: "0.1".into(), latency_ms: None },
-        Config { balances: ["5".into(), "0".into(), "25".into()], fee: "0".into(), latency_ms: None },
+        Config { balances: ["3.3".into(), "3.3".into(), "33".into()], fee: "0.1".into(), latency_ms: None, same_cid: false },
+        Config { balances: ["5".into(), "0".into(), "25".into()], fee: "0".into(), latency_ms: None, same_cid: false },
         // slow exchange: the manager's request timeout (1 s) drops every open-order call before the answer (1.5 s)
-        Config { balances: ["3.3".into(), "3.3".into(), "33".into()], fee: "0.1".into(), latency_ms: Some(SLOW_LATENCY_MS) },
+        Config { balances: ["3.3".into(), "3.3".into(), "33".into()], fee: "0.1".into(), latency_ms: Some(SLOW_LATENCY_MS), same_cid: false },
     ];
     let b_depth = if quick { 3 } else { 4 };
     let b_exec = AtomicU64::new(0);
@@ -1656,19 +1737,23 @@ pub fn run(ctx: &Ctx) -> Outcome {
     Outcome {
         level: "exploration",
         coverage: json!({
-            "evaluations": sequences + fine_sequences + env_execs + 1 + b_execs,
-            "distinct_nontrivial": distinct_total + fine_distinct + distinct.len() + b_distinct.len(),
+            "evaluations": sequences + fine_sequences + cid_sequences + env_execs + 1 + b_execs,
+            "distinct_nontrivial": distinct_total + fine_distinct + cid_distinct + distinct.len() + b_distinct.len(),
             "exhaustive": true,
             "layer1_seq": {
                 "configurations": cfgs.len(), "balance_menu": menu, "fees": ["0", "0.1"], "alphabet_size": alpha.len(), "alphabet_size_beyond_len_3": alpha_base.len(), "max_len": depth, "max_len_for_configurations_with_balance_3": 3,
                 "sequences": sequences, "open_order_calls": steps, "accepted": accepted, "rejected": rejected, "distinct_final_ledgers": distinct_total,
             },
             "layer1b_many_decimals": {
-                "configurations": fine_cfgs.len(), "balance_menu": ["0.00012336905745", "33"], "fee": "0.00075", "price_unit": "0.00001234", "quantity_unit": "0.333",
+                "configurations": fine_cfgs.len(), "balance_menu": fine_menu, "fee": "0.00075", "price_unit": "0.00001234", "quantity_unit": "0.333",
                 "alphabet_size": fine_alpha.len(), "max_len": fine_depth, "sequences": fine_sequences, "accepted": fine_accepted, "rejected": fine_rejected, "distinct_final_ledgers": fine_distinct,
             },
+            "layer1c_reused_client_order_id": {
+                "configurations": cid_cfgs.len(), "alphabet_size": alpha_base.len(), "max_len": cid_depth, "sequences": cid_sequences, "accepted": cid_accepted, "rejected": cid_rejected, "distinct_final_ledgers": cid_distinct,
+                "what": "every request of a sequence carries the same client order id and strategy",
+            },
             "layer2_env": {
-                "configurations": env_cfgs, "ops_menu": env_ops().len(), "max_ops": env_depth, "executions": env_execs, "choice_points": env_points,
+                "configurations": env_cfgs, "ops_menu": env_ops().len(), "ops_menu_at_max_ops_4": env_menu(false).len(), "max_ops": env_depth, "executions": env_execs, "choice_points": env_points,
                 "oneshot_responses": env_resp.load(Ordering::Relaxed), "broadcast_notifications": env_notes.load(Ordering::Relaxed),
                 "open_order_calls_abandoned_by_the_client": env_abandoned.load(Ordering::Relaxed), "of_those_accepted_by_the_ledger": env_abandoned_acc.load(Ordering::Relaxed),
                 "abandonment": "every open-order symbol also as a call whose future is polled (request sent) and then dropped at once / half a latency later; the order must still be announced and reflected by the queries",
@@ -1683,7 +1768,7 @@ pub fn run(ctx: &Ctx) -> Outcome {
                 "order_answers": b_resp.load(Ordering::Relaxed), "notifications": b_notes.load(Ordering::Relaxed), "distinct_outcomes": b_distinct.len(),
                 "open_order_calls_abandoned_by_the_manager": b_abandoned.load(Ordering::Relaxed), "of_those_accepted_by_the_ledger": b_abandoned_acc.load(Ordering::Relaxed),
                 "slow_exchange": format!("one configuration with latency {SLOW_LATENCY_MS} ms > the manager's request timeout {MANAGER_TIMEOUT_MS} ms: every call is dropped by the manager before the answer; pacing same instant / after the timeout / after the latency"),
-                "what": "IndexedInstruments [Kraken (tracked, no link) x2, BinanceSpot x3] -> ExecutionBuilder::add_mock -> build -> init; orders sent through the MultiExchangeTxMap, answers and announcements read (indexed) from the merged account channel and judged by the same ledger oracle",
+                "what": "IndexedInstruments [Kraken (tracked, no link) x2, BinanceSpot x3, Okx (tracked, no link; its one instrument is named like a BinanceSpot one)] -> ExecutionBuilder::add_mock -> build -> init; orders sent through the MultiExchangeTxMap, answers and announcements read (indexed) from the merged account channel and judged by the same ledger oracle",
             },
             "rule": "ledger model from the statement (buy spends quote p*q*(1+fee), sell spends base q*(1+fee); accept iff enough; exact debit; rejection without effect; fresh ids; fee percentage; one balance + one trade announcement; queries reflect accepted orders) checked after every step of every request sequence <= max_len for every balance/fee configuration on the real MockExchange::open_order/account_snapshot, on every op sequence x pacing x {call awaited, call abandoned at once, abandoned half a latency later} through MockExecution -> MockExchange::run (+ one long scripted run; an abandoned call's accepted order must still be announced once by a balance and a trade notification with fresh ids and be reflected by later queries), and on every order sequence x pacing through the builder path (ExecutionBuilder::add_mock -> ExecutionManager -> MockExecution -> MockExchange configured by the builder; one configuration with an exchange slower than the manager's request timeout, so that the manager abandons every call)",
             "samples": samples.lock().unwrap().values().cloned().collect::<Vec<_>>(),
@@ -1692,9 +1777,10 @@ pub fn run(ctx: &Ctx) -> Outcome {
             "amounts stay far inside Decimal's 28 significant digits (no rounding inside the arithmetic)".into(),
             "prices and quantities are positive; initial total == free (market orders only, as the code asserts)".into(),
             "every asset of every listed instrument has an initial balance entry (the code panics otherwise by design)".into(),
-            "client order ids are unique".into(),
+            "client order ids are unique, except in layer 1c where every order of a sequence carries the same client order id and strategy (the statement's rules hold for any sequence of orders: accepted iff enough, ids fresh)".into(),
             "limit orders and orders for unlisted instruments are expected to be rejected without effect (the exchange only fills market orders on listed instruments)".into(),
-            "the relative order of the balance and the trade announcement is not prescribed; a trade exactly at `since` may or may not be listed".into(),
+            "the relative order of the balance and the trade announcement is not prescribed; a trade exactly at `since` may or may not be listed; a trade query names an absolute `since` (one of the queries puts it 1 ms after the first op's exchange time, i.e. inside the history)".into(),
+            "asset names on the exchange are upper case, i.e. differ from the lower-case internal names the index derives from them; layer 3 has a third exchange (Okx, tracked, no link, after the simulated one) that lists another market under an instrument name the simulated exchange also uses".into(),
             "layer 2: requests are processed in the order they were sent (single client)".into(),
             "a market order is a market order whatever its time in force (IOC, FOK, GTC, GTD are all in the alphabet); the answer to an order repeats the order's key and terms".into(),
             "an open-order call the client abandons AFTER its request reached the exchange is an order like any other: whether it is accepted is decided by the ledger (its answer is neither demanded nor used), and an accepted one is owed its one balance and one trade announcement; its announcements are recognised by content (trade: instrument, strategy, side, price, quantity, not carrying an awaited order's id; balance: the debited asset with its new value)".into(),
